@@ -72,7 +72,7 @@ pub const OP_NAMES: [&str; N_OPS] = [
     "G1 wNAF, one context reused (base-then-scalar twice)",
     "G2 wNAF scalar-then-base",
     "G1 precomp_256 + mul_precomp_256",
-    "G1 sum_of_products (8 terms)",
+    "G1 sum_of_products (8 terms, repeated bases)",
     "G2Prepared::from_affine(Q)",
     "G2Prepared::from_affine(-Q)",
     "pairing(P, Q)",
@@ -131,9 +131,19 @@ pub fn run_op(i: usize) -> Vec<u8> {
         6 => {
             let mut pts = vec![];
             let mut p = g1();
-            for _ in 0..8 {
+            for j in 0..8 {
                 pts.push(p.into_affine());
-                p.double();
+                // the same base occurs more than once (positions 0, 3, 6 and 1, 5)
+                if j != 2 && j != 4 && j != 5 {
+                    p.double();
+                } else if j == 2 {
+                    p = g1();
+                } else if j == 4 {
+                    p = g1();
+                    p.double();
+                } else {
+                    p = g1();
+                }
             }
             let ks: Vec<[u64; 4]> = (0..8).map(|j| k(10 + j).0).collect();
             let refs: Vec<&[u64; 4]> = ks.iter().collect();
